@@ -105,9 +105,19 @@ FamS == {[c EXCEPT !.seg = TRUE] :
            c \in {c \in FamA : c.obs["a"].dur = 1 /\ c.obs["b"].dur = 1 /\ c.obs["b"].est <= 1 /\ c.maxIngest = 2}
                  \cup {c \in FamB : c.obs["a"].comp[1] = 1 /\ c.coldCap = 6}}
 
+(* ---- family D: every DAG on four ordered nodes, fractional transfer waits --- *)
+Pairs4 == {<<u, v>> \in (1..4) \X (1..4) : u < v}
+FamD ==
+    {[Base EXCEPT !.order = <<"a">>, !.mach = Mach2bw, !.K = 2, !.alg = al,
+                  !.obs = ("a" :> MkObs(0, 1, 1, 1, 1,
+                              Wf({1, 2, 3, 4}, (1 :> 2 @@ 2 :> 1 @@ 3 :> 3 @@ 4 :> 1),
+                                 (1 :> 0 @@ 2 :> 0 @@ 3 :> 2 @@ 4 :> 0), es,
+                                 [e \in es |-> (e[1] + 2 * e[2]) % 4])))] :
+        es \in SUBSET Pairs4, al \in {"queue", "batch"}}
+
 CONSTANT FamilyName
 Fam == CASE FamilyName = "A" -> FamA [] FamilyName = "P" -> FamP [] FamilyName = "W" -> FamW
-               [] FamilyName = "V" -> FamV [] FamilyName = "B" -> FamB [] FamilyName = "BX" -> FamBX [] FamilyName = "A3" -> FamA3 [] FamilyName = "S" -> FamS
+               [] FamilyName = "V" -> FamV [] FamilyName = "B" -> FamB [] FamilyName = "BX" -> FamBX [] FamilyName = "A3" -> FamA3 [] FamilyName = "S" -> FamS [] FamilyName = "D" -> FamD
 MCConfigs == {c \in Fam : FeasibleCfg(c)}
 
 (* ------------------------------ properties -------------------------------- *)
